@@ -201,6 +201,35 @@ fn circle_case(case: &Case, l: &mut Local) {
             l.check("circle fit recovers centre and radius from exact samples", "", e <= 1e-6 * r, mk, || format!("centre ({},{}) r {}: error {:e}", cx, cy, r, e));
         }
     }
+    if case.b % 4 == 3 && case.d % 5 == 0 {
+        // samples whose distances from the centre are exactly equal in floating point (integer Pythagorean
+        // points) and a guess that is concentric with them: all residuals coincide, their spread is exactly zero
+        l.eval();
+        let k = [1.0, 13.0][case.a % 2];
+        let (ox, oy) = ([0.0, 40.0][case.c % 2], [0.0, -30.0][case.c % 2]);
+        let mut ring = Vec::new();
+        for (x, y) in [(3.0, 4.0), (4.0, 3.0), (5.0, 0.0), (0.0, 5.0)] {
+            for (sx, sy) in [(1.0, 1.0), (-1.0, 1.0), (1.0, -1.0), (-1.0, -1.0)] {
+                let q = Point2::new(ox + k * x * sx, oy + k * y * sy);
+                if !ring.iter().any(|r: &Point2| *r == q) {
+                    ring.push(q);
+                }
+            }
+        }
+        for gr in [0.9, 1.2] {
+            let concentric = Circle2::new(ox, oy, 5.0 * k * gr);
+            l.bucket("exactly equidistant samples, concentric guess");
+            match guarded(|| Circle2::fitting_circle(&ring, &concentric, mode).map_err(|e| e.to_string())) {
+                Ok(Ok(c)) => {
+                    let e = d2(&c.center, &Point2::new(ox, oy)).max((c.r() - 5.0 * k).abs());
+                    l.check("circle fit recovers centre and radius from exact samples", "concentric guess", e <= 1e-6 * 5.0 * k, mk, || format!("centre ({},{}) r {} from a concentric guess of radius {}: got r {} (error {:e})", ox, oy, 5.0 * k, 5.0 * k * gr, c.r(), e));
+                }
+                other => {
+                    l.check("circle fit succeeds from a nearby guess", "concentric guess", false, mk, || format!("{:?}", other.map(|r| r.map(|c| c.r()))));
+                }
+            }
+        }
+    }
     if case.d == 0 {
         // deterministic perturbation: the result must be a stationary point of the summed squared radial residuals
         l.eval();
@@ -485,7 +514,7 @@ pub fn run(tier: Tier) -> i32 {
     let mut cx = Ctx::new("C09", tier, "exploration");
     cx.rule = "polynomials with K = 2..6 coefficients: coefficient vectors from {-2,-1,0,1,3}^K (sub-sampled deterministically for K >= 5 in the quick tier) x 5 abscissa sets (asymmetric, one-sided, clustered, offset, integer) x sizes K, K+1, K+3 x 5 weight patterns; arbitrary ordinates {-1,0,2}^(K+2) for the orthogonality clause; circles: 3 centres x 3 radii x 4 arc extents x 3 starts x 3 counts x 5 guesses x 2 modes; all set_params histories of length <= 3 over a 5-vector alphabet of the private CircleFit problem (hook H4) compared with a fresh problem; every ordered triple of the 4x4 lattice at 3 scales; seeded RANSAC on 36 contaminated sets. distinct = distinct cases".into();
     cx.bounds = json!({"K": [2, 6], "coefficient_alphabet": COEF, "abscissa_sets": xsets().len(), "circle_histories_max_len": 3});
-    cx.require(&["abscissae with a non-zero moment of order K", "abscissae with a vanishing moment of order K", "weighted", "unweighted", "arbitrary data", "full circle", "partial arc", "perturbed samples", "set_params history", "collinear triple", "non-collinear triple", "triple with coordinates below 0.01", "contaminated circle", "contaminated circle with radius limits"]);
+    cx.require(&["abscissae with a non-zero moment of order K", "abscissae with a vanishing moment of order K", "weighted", "unweighted", "arbitrary data", "full circle", "partial arc", "perturbed samples", "set_params history", "collinear triple", "non-collinear triple", "triple with coordinates below 0.01", "contaminated circle", "contaminated circle with radius limits", "exactly equidistant samples, concentric guess"]);
     cx.assume("recovery tolerance 1e5 * cond(M) * eps * |c|_inf (the routine inverts the normal matrix explicitly); instances with cond > 1e8 are skipped and counted");
     let cs = cases(tier);
     let l = sweep(&cs, judge);
